@@ -64,7 +64,7 @@ def actC (imm : Imm) (junk : Nat → Nat) (prog : List MStep) (st : CState) (pc 
     match st.pend with
     | some (q, blk) =>
       if e.eval ρ = q then .cont { mem := { st.mem with data := q }, cur := blk, pend := none } (pc + 1) ρ else .stuck
-    | none => .stuck
+    | none => if e.eval ρ = st.mem.data then .cont st (pc + 1) ρ else .stuck      -- storing the same pointer back
   | _ =>
     match act imm prog st.mem pc ρ with
     | .cont m' pc' ρ' => .cont { st with mem := m' } pc' ρ'
